@@ -178,6 +178,32 @@ func runC10(r *Run) {
 		}
 	}
 
+	// the bank-send wrapper moves pair tokens itself: same post-conditions
+	if fn, ok := P.FnOK("(x/bank/keeper.msgServer).subUnlockedERC20Tokens"); ok {
+		where := P.Pos(fnPos(fn))
+		isTransfer := isCallMatching(func(ci CallInfo) bool {
+			if ci.Name != "CallEVM" || !errHandled(ci.Instr) || !strArg(ci.Instr, "transfer") {
+				return false
+			}
+			a := ci.Instr.Common().Args
+			va := backSlice(a[len(a)-1])
+			return va.HasParam("amt") && va.HasParam("toAddr") && backSlice(argN(ci.Instr, 2)).HasParam("fromAddr")
+		})
+		w := Precedes(fn, isTransfer, isSuccessExit, nil)
+		r.Check(w == nil, "R1", fnID(fn)+"#event/CallEVM(transfer)", where, "on every success path", "the wrapper can succeed without the ERC20 transfer(from → to, amt)", P.witness(w)...)
+		requireGuard(r, "R1", fnID(fn)+"#guard/transfer-returned-true", fn, boolRet, nil, isSuccessExit, "success only where transfer returned true", "the bank-send wrapper can report success although the token's transfer returned false")
+		requireGuard(r, "R1", fnID(fn)+"#guard/token-balance-check", fn, cmpEqualGuard(func(c *ssa.Call) bool {
+			a := callArgs(c)
+			after, exp := backSlice(a[0]), backSlice(a[1])
+			isBal := func(s *Slice) bool { return s.HasCall(func(ci CallInfo) bool { return ci.Name == "BalanceOf" }) }
+			return isBal(after) && isBal(exp) && exp.HasParam("amt")
+		}), nil, isSuccessExit, "success only where the receiver's token balance grew by amt", "the bank-send wrapper can succeed without checking that the receiver's token balance grew by the amount")
+		w = Precedes(fn, isCallMatching(approvalEv.pred), isSuccessExit, nil)
+		r.Check(w == nil, "R1", fnID(fn)+"#event/monitorApprovalEvent", where, "on every success path", "the wrapper can succeed without the unexpected-Approval monitor", P.witness(w)...)
+	} else {
+		r.Bad("R1", "anchor/subUnlockedERC20Tokens", "", "bank send wrapper conversion not found")
+	}
+
 	// ---------- R2 ----------
 	checkMintBurnOwnership(r, "R2", modName, map[string]string{
 		"(" + erc20K + ".Keeper).convertERC20NativeToken": "mint for escrowed ERC20-origin tokens",
@@ -410,10 +436,22 @@ func nilWrapRule(r *Run, rule string) {
 				return
 			}
 			ci := callInfo(c)
-			if ci.Recv != "" || !(ci.Name == "Wrap" || ci.Name == "Wrapf" || ci.Name == "WithMessage" || ci.Name == "WithMessagef") {
-				return
+			viaVar := false
+			if u, ok := c.Call.Value.(*ssa.UnOp); ok && u.Op == token.MUL {
+				if g, ok := u.X.(*ssa.Global); ok && (g.Name() == "Wrap" || g.Name() == "Wrapf") && g.Pkg != nil && pathHasSuffix(g.Pkg.Pkg.Path(), "types/errors") {
+					viaVar = true
+					ci.Name = g.Name()
+				}
 			}
-			if !(pathHasSuffix(ci.PkgPath, "cosmossdk.io/errors") || pathHasSuffix(ci.PkgPath, "github.com/pkg/errors") || pathHasSuffix(ci.PkgPath, "types/errors")) {
+			if !viaVar {
+				if ci.Recv != "" || !(ci.Name == "Wrap" || ci.Name == "Wrapf" || ci.Name == "WithMessage" || ci.Name == "WithMessagef") {
+					return
+				}
+				if !(pathHasSuffix(ci.PkgPath, "cosmossdk.io/errors") || pathHasSuffix(ci.PkgPath, "github.com/pkg/errors") || pathHasSuffix(ci.PkgPath, "types/errors")) {
+					return
+				}
+			}
+			if len(c.Call.Args) == 0 {
 				return
 			}
 			n++
